@@ -52,7 +52,18 @@ impl Neg for i32 { type Output = i32; fn neg(self) -> i32 { -self } }
 impl Neg for i64 { type Output = i64; fn neg(self) -> i64 { -self } }
 impl Neg for i128 { type Output = i128; fn neg(self) -> i128 { -self } }
 #[repr(u8)] pub enum __c_void { __A = 0, __B = 1 }
+pub mod __prim {
+    pub type p_u8 = u8; pub type p_u16 = u16; pub type p_u32 = u32; pub type p_u64 = u64; pub type p_u128 = u128;
+    pub type p_i8 = i8; pub type p_i16 = i16; pub type p_i32 = i32; pub type p_i64 = i64; pub type p_i128 = i128;
+    pub type p_f32 = f32; pub type p_f64 = f64; pub type p_bool = bool;
+}
 "#;
+
+/// `::core::primitive::u32` (written by pyxis where a module's own item shadows the name) has
+/// no meaning without core: the crate-level aliases stand in for it.
+fn without_core_paths(s: &str) -> String {
+    s.replace(":: core :: primitive :: ", "crate::__prim::p_").replace("::core::primitive::", "crate::__prim::p_")
+}
 
 #[derive(Default)]
 struct ModNode {
@@ -119,8 +130,11 @@ pub fn build_crate(files: &[(String, String)], externs: &[ExternDef]) -> Result<
                         }
                         ftys.push(t);
                     }
-                    field_types.insert(format!("{mpath}::{name}"), ftys);
-                    node.items.push(s.to_token_stream().to_string());
+                    field_types.insert(format!("{mpath}::{name}"), ftys.iter().map(|t| without_core_paths(t)).collect());
+                    for t in type_set.iter_mut() {
+                        *t = without_core_paths(t);
+                    }
+                    node.items.push(without_core_paths(&s.to_token_stream().to_string()));
                     aliases.push((mpath.clone(), name));
                 }
                 syn::Item::Enum(mut e) => {
@@ -167,11 +181,11 @@ pub fn build_crate(files: &[(String, String)], externs: &[ExternDef]) -> Result<
         let node = insert(&mut root, mpath);
         match crate::l2::elem_for_align((*align).max(1) as i64) {
             Some((elem, a)) if (*size as i64) % a == 0 => node.items.push(format!(
-                "#[repr(C)] pub struct {name} {{ pub __elems: [{elem}; {}] }}",
+                "#[repr(C)] pub struct {name} {{ pub __elems: [crate::__prim::p_{elem}; {}] }}",
                 *size as i64 / a
             )),
             _ => node.items.push(format!(
-                "#[repr(C, align({}))] pub struct {name} {{ pub __bytes: [u8; {size}] }}",
+                "#[repr(C, align({}))] pub struct {name} {{ pub __bytes: [crate::__prim::p_u8; {size}] }}",
                 (*align).max(1)
             )),
         }
